@@ -344,7 +344,8 @@ class Executor:
         r = self.region(st, p)
         off = p.off
         if is_z3(off):
-            offs = z3.simplify(off)
+            offs = self.resolve_ite(st, off)
+            off = offs
             if r.size is None and r.lazy and not z3.is_bv_value(offs):
                 # array-like select on an object of unknown extent: one symbolic cell per offset term
                 key = ('symoff', offs.get_id(), self.m.sizeof(ty))
@@ -364,6 +365,9 @@ class Executor:
             raise PathEnd('oob', 'load %s+%d' % (r.name, off))
         if r.freed:
             st.event('use-after-free', region=r.name)
+        if ('symstore',) in r.cells:
+            # an earlier store at a symbolic offset may alias this cell: not modelled
+            raise Unsupported('load from %s after a store at a symbolic offset' % r.name)
         c = r.cells.get(off)
         if c is not None and c[1] == size:
             return self.retype(c[0], ty)
@@ -493,11 +497,13 @@ class Executor:
         off = p.off
         size = self.m.sizeof(ty)
         if is_z3(off):
-            offs = z3.simplify(off)
+            offs = self.resolve_ite(st, off)
+            off = offs
             if r.size is None and r.lazy and not z3.is_bv_value(offs):
                 if r.const:
                     r = r.copy(); r.const = False; st.mem[r.rid] = r
                 r.cells[('symoff', offs.get_id(), size)] = (v, size)
+                r.cells[('symstore',)] = (True, 0)
                 self.keep.append(offs)
                 r.writes += 1
                 if self.write_hook:
@@ -518,6 +524,30 @@ class Executor:
             self.write_hook(st, r, off, size, v)
 
     write_hook = None
+
+    def resolve_ite(self, st, e):
+        """decide the conditions of if-then-else subterms of an offset until it is constant or ite-free"""
+        for _ in range(64):
+            e = z3.simplify(e)
+            if z3.is_bv_value(e):
+                return e
+            ite = None
+            todo = [e]
+            seen = set()
+            while todo and ite is None:
+                t = todo.pop()
+                if t.get_id() in seen:
+                    continue
+                seen.add(t.get_id())
+                if z3.is_app_of(t, z3.Z3_OP_ITE):
+                    ite = t
+                    break
+                todo.extend(t.children())
+            if ite is None:
+                return e
+            c = ite.arg(0)
+            e = z3.substitute(e, (ite, ite.arg(1) if self.decide(st, c) else ite.arg(2)))
+        return e
     tolerant = False
     fork_bound = None
     no_prune = False
